@@ -52,10 +52,11 @@ def mk_record(j):
 
 def mk_reference(rid):
     """reference number `rid`: odd ones are published (their own title and PubMed id), even ones are the classic
-    unpublished entry (title 'Direct Submission', no identifier) and differ from one another in authors and journal only"""
+    unpublished entry (title 'Direct Submission', no identifier); references 4 apart share their authors, so two
+    direct submissions of one group differ in the journal line (the submission date) and the location only"""
     from Bio.SeqFeature import Reference
     r = Reference()
-    r.authors = "author %s" % rid
+    r.authors = "author %s" % (int(rid) % 4)
     r.journal = "journal %s" % rid
     if int(rid) % 2:
         r.title = "title %s" % rid
@@ -71,7 +72,7 @@ def mk_reference(rid):
 
 def ref_id(r):
     try:
-        return int(r.authors.split()[1])
+        return int(r.journal.split()[1])
     except Exception:
         return repr(r)
 
